@@ -28,6 +28,21 @@ TITLES = {
 }
 
 
+def _rules_in(sig):
+    r = sorted(set(re.findall(r"(?:md|pml)\d{3}", sig.lower())))
+    return ",".join(r) if r else "default-rule-set"
+
+
+# For reporting, signatures of some properties are grouped (the exact signatures stay the matchers):
+GROUP = {
+    "C08": lambda s: "fix changes meaning; rules involved: " + _rules_in(s),
+    "C09": lambda s: "fix does not converge; rules involved: " + _rules_in(s),
+    "C06": lambda s: "rule verdict differs from the documented condition: " + _rules_in(s),
+    "C12": lambda s: "rule reports depend on other rules being enabled: " + _rules_in(s),
+    "C16": lambda s: "entry points disagree: " + ";".join(sorted({p.split("|")[-1] for p in s.split(";")})),
+}
+
+
 def load(prop):
     p = os.path.join(DATA, f"{prop}.json.gz")
     if not os.path.exists(p):
@@ -56,30 +71,39 @@ def main():
                 a = agg.setdefault(sig, {"universes": {}, "examples": []})
                 a["universes"][uname] = len(val["r"]) if isinstance(val, dict) else len(val)
                 a["examples"] += ud.get("examples", {}).get(sig, [])
+        groups = {}
         for sig, a in sorted(agg.items()):
-            ex = sorted(set(a["examples"]), key=len)[:3]
-            title = TITLES.get(prop, lambda s: s)(sig)
+            g = GROUP[prop](sig) if prop in GROUP else sig
+            grp = groups.setdefault(g, {"sigs": [], "universes": {}, "examples": []})
+            grp["sigs"].append(sig)
+            for u, n in a["universes"].items():
+                grp["universes"][u] = grp["universes"].get(u, 0) + n
+            grp["examples"] += a["examples"]
+        for g, grp in sorted(groups.items()):
+            ex = sorted(set(grp["examples"]), key=len)[:3]
+            sig0 = grp["sigs"][0]
+            title = TITLES.get(prop, lambda s: s)(sig0) if prop not in GROUP else g
             disposition = "genuine"
             note = None
             # properties whose oracle is an independent implementation or my reading of informal documentation:
             # a disagreement is a finding only once adjudicated (tools/c03_adjudication.json, tools/adjudication.json);
             # otherwise it is a rank-exact domain exclusion and is not printed as KNOWN-FINDING
-            if prop in ("C03", "C06", "C08") or (prop == "C20" and "E1:" in sig and "E2" not in sig and "E3" not in sig):
-                ad = adj.get(sig) or adj2.get(prop, {}).get(sig)
+            if prop in ("C03", "C06", "C08") or (prop == "C20" and all("E1:" in x and "E2" not in x and "E3" not in x for x in grp["sigs"])):
+                ad = adj.get(sig0) or adj2.get(prop, {}).get(g) or adj2.get(prop, {}).get(sig0)
                 disposition = ad["disposition"] if ad else "undecided"
                 note = ad.get("note") if ad else None
-            e = {"id": sig_id(prop, sig), "property": prop, "status": "open", "auto": True, "disposition": disposition, "title": title[:300],
-                 "match": [{"kind": "ranks", "sig": sig, "universes": a["universes"]}], "examples": ex}
+            e = {"id": sig_id(prop, g), "property": prop, "status": "open", "auto": True, "disposition": disposition, "title": title[:300],
+                 "match": [{"kind": "ranks", "sig": x} for x in grp["sigs"]], "universes": grp["universes"], "examples": ex}
             if note:
                 e["note"] = note
-            if prop in ("C01",) and sig.startswith("exc:"):
-                e["match"].append({"kind": "call_site", "sig": sig})
-            if prop in ("C02",) and sig.startswith("regen-exc:"):
-                e["match"].append({"kind": "call_site", "sig": sig})
+            if prop in ("C01",) and sig0.startswith("exc:"):
+                e["match"].append({"kind": "call_site", "sig": sig0})
+            if prop in ("C02",) and sig0.startswith("regen-exc:"):
+                e["match"].append({"kind": "call_site", "sig": sig0})
             auto.append(e)
             summary.setdefault(prop, [0, 0])
             summary[prop][0] += 1
-            summary[prop][1] += sum(a["universes"].values())
+            summary[prop][1] += sum(grp["universes"].values())
     kf["findings"] = manual + auto
     with open(KF, "w", encoding="utf-8") as f:
         json.dump(kf, f, indent=1, ensure_ascii=True)
